@@ -35,7 +35,10 @@ theorem step_inv (ops : List (HOp S)) (s0 : S) (st : HState S) (op : HOp S) (hok
       by_cases ht : st.transcribed = true
       · simp only [ht, if_true]; exact ⟨h1, fun _ => h2 ht⟩
       · simp only [ht]; exact ⟨h1, fun _ => rfl⟩
-    · simp only [hq]; exact ⟨h1, h2⟩
+    · simp only [hq]
+      by_cases hc : op.info.clears = true
+      · simp only [hc, if_true, stepClear]; exact ⟨h1, by simp⟩
+      · simp only [hc]; exact ⟨h1, h2⟩
   · simp only [hw, stepWrite]
     simp only [rowOK, hw, Bool.false_or, Bool.or_eq_true, Bool.and_eq_true] at hok
     rcases hok with hc | ⟨hl, hs⟩
